@@ -14,12 +14,15 @@ EXTENDS Naturals, Sequences, FiniteSets, TLC, Json
 
 Kinds == {"file", "dir", "symdir", "symfile", "magic"}     \* ordinary procfs symlinks by the type of their target
 Decos == {"", "/", "/.", "/..", "/nx-child", "./", "/..NUL"}    \* "/..NUL": a ".." component followed by a NUL byte (Rust API only)
-Ops   == {"open_rdonly", "open_path", "open_dir", "open_follow_path", "open_follow_dir", "readlink", "open_creat", "open_follow_creat", "open_tmpfile"}
+Ops   == {"open_rdonly", "open_path", "open_dir", "open_follow_path", "open_follow_dir", "readlink", "open_creat", "open_follow_creat", "open_tmpfile",
+          "open_follow_nf_path", "open_follow_nf_rdonly"}     \* open_follow called WITH O_NOFOLLOW: the caller refused the trailing link, so it behaves like open
+\* an explicit O_NOFOLLOW makes open_follow the same operation as open
+Canon(o) == IF o = "open_follow_nf_path" THEN "open_path" ELSE IF o = "open_follow_nf_rdonly" THEN "open_rdonly" ELSE o
 
 \* does the decorated path still name the entry as its final component?
 Final(d) == d \in {"", "./"}
 
-Expect(k, d, o) ==
+ExpectC(k, d, o) ==
     IF o \in {"open_creat", "open_follow_creat", "open_tmpfile"} THEN "InvalidArgument"          \* creation flags refused up front
     ELSE IF d = "/..NUL" THEN "ERR"          \* never a truncated path: an interior NUL is an error in both resolvers
     ELSE IF d = "/.." THEN (IF k \in {"dir", "symdir"} THEN "ERR-or-inside" ELSE "ERR")
@@ -51,10 +54,16 @@ Expect(k, d, o) ==
          ELSE IF o = "readlink" THEN "body"
          ELSE IF o = "open_follow_dir" THEN "target-or-ENOTDIR" ELSE "target")
 
+Expect(k, d, o) ==
+    \* "link/" + O_NOFOLLOW through open_follow: the trailing slash becomes O_DIRECTORY on the final no-follow open of the
+    \* link itself, which is not a directory (open, by contrast, walks through "link/" in its resolver)
+    IF o \in {"open_follow_nf_path", "open_follow_nf_rdonly"} /\ d = "/" /\ k \in {"symdir", "symfile", "magic"} THEN "ENOTDIR"
+    ELSE ExpectC(k, d, Canon(o))
+
 VARIABLE x
 Spec == x = 0 /\ [][x' = x]_x
 \* sanity: open (forced O_NOFOLLOW) and readlink never yield the target of a trailing link
-OpenNeverFollowsTrailing == \A k \in {"symdir", "symfile", "magic"}, d \in {"", "./"}, o \in {"open_rdonly", "open_path", "open_dir", "readlink"} : Expect(k, d, o) # "target"
+OpenNeverFollowsTrailing == \A k \in {"symdir", "symfile", "magic"}, d \in {"", "./"}, o \in {"open_rdonly", "open_path", "open_dir", "readlink", "open_follow_nf_path", "open_follow_nf_rdonly"} : Expect(k, d, o) # "target"
 FollowOnlyTrailing == \A d \in Decos \ {"", "./", "/"} : \A o \in Ops : Expect("magic", d, o) \in {"ELOOP", "ERR", "InvalidArgument"}
 Inv == OpenNeverFollowsTrailing /\ FollowOnlyTrailing
 ASSUME PrintT(<<"CASES", ToJson({[k |-> k, d |-> d, o |-> o, e |-> Expect(k, d, o)] : k \in Kinds, d \in Decos, o \in Ops})>>)
